@@ -7,6 +7,7 @@ rules); rules the documentation defines only in prose are passed to the model
 as native operations (partial, star_partial, star_strict, rematch, rep)."""
 import json
 import random
+import re
 
 # ----------------------------------------------------------------------------- AST
 
@@ -47,20 +48,23 @@ class Grammar:
         self.alphabet = alphabet
         self.note = note
         self.extra = extra or []  # additional explicit inputs (latin-1 strings)
+        self.selectors = []       # parse-tree selectors 1..: dict ctype -> mode (1 store, 2 remove_content, 3 fold_one, 4 discard_empty)
         self.maxlen = maxlen      # (quick, thorough) exhaustive input length, None = default
 
     def to_json(self):
         return {"rules": [r.to_json() for r in self.rules], "actions": self.actions,
                 "errmsg": {str(k): v for k, v in self.errmsg.items()}, "nonempty_slots": self.nonempty_slots,
                 "veto": self.veto, "throw": self.throw, "alphabet": self.alphabet, "note": self.note,
-                "extra": self.extra, "maxlen": self.maxlen}
+                "extra": self.extra, "maxlen": self.maxlen, "selectors": self.selectors}
 
     @staticmethod
     def from_json(j):
-        return Grammar([N.from_json(r) for r in j["rules"]], dict(j.get("actions", {})),
-                       {int(k): v for k, v in j.get("errmsg", {}).items()}, j.get("nonempty_slots", 0),
-                       j.get("veto", False), j.get("throw", False), j.get("alphabet"), j.get("note", ""),
-                       j.get("extra"), j.get("maxlen"))
+        g = Grammar([N.from_json(r) for r in j["rules"]], dict(j.get("actions", {})),
+                    {int(k): v for k, v in j.get("errmsg", {}).items()}, j.get("nonempty_slots", 0),
+                    j.get("veto", False), j.get("throw", False), j.get("alphabet"), j.get("note", ""),
+                    j.get("extra"), j.get("maxlen"))
+        g.selectors = j.get("selectors", [])
+        return g
 
     def nslots(self):
         m = -1
@@ -460,6 +464,8 @@ class Lowered:
         e = expand(n)
         self._lower_e(e, idx)
         m = self.nodes[idx]
+        if n.op == "if_then" and (len(n.p["thens"]) > 1 or n.p["else"] >= 0) and not re.fullmatch(r"R\d+", ct):
+            return  # else_if_then / else_then chains are aliases of internal (control-disabled) types: invisible to controls
         m.ctype = ct
         if n.op == "raise_message":
             m.errmsg = n.p["msg"]  # raise_message< Cs... > carries its text as error_message
@@ -589,6 +595,15 @@ def emit_grammar(g, gi, cfgset_macro="VF_CFGS"):
     KIND = {1: "pm::VOID_APPLY", 2: "pm::VOID_APPLY0", 3: "pm::BOOL_APPLY", 4: "pm::BOOL_APPLY0"}
     for ct, kind in sorted(g.actions.items()):
         out.append("template<> struct act< %s > : vf::scripted< %s, %s > {};" % (ct, KIND[kind], ct))
+    if g.selectors:
+        PT = "tao::pegtl::parse_tree::"
+        out.append("template< typename Rule > using sel0 = %sinternal::store_all< Rule >;" % PT)
+        for si, sel in enumerate(g.selectors):
+            groups = {1: [], 2: [], 3: [], 4: []}
+            for ct, mode in sorted(sel.items()):
+                groups[mode].append(ct)
+            out.append("template< typename Rule > using sel%d = %sselector< Rule, %sstore_content::on< %s >, %sremove_content::on< %s >, %sfold_one::on< %s >, %sdiscard_empty::on< %s > >;"
+                       % (si + 1, PT, PT, ", ".join(groups[1]), PT, ", ".join(groups[2]), PT, ", ".join(groups[3]), PT, ", ".join(groups[4])))
     out.append("static void build( pm::grammar& g, vf::registry& reg ) {")
     out.append(" g.nodes.resize( %d );" % len(L.nodes))
     for i, m in enumerate(L.nodes):
@@ -622,7 +637,14 @@ def emit_grammar(g, gi, cfgset_macro="VF_CFGS"):
     alphabet = g.alphabet or grammar_alphabet(g)
     ops_used = set(n.op for r in g.rules for n in r.walk())
     visited_ok = not (ops_used & {"until", "strict", "everything", "shebang"})
-    extra_txt = ("e.visited_check = true; " if visited_ok else "") + "".join("e.extra.push_back( std::string( \"%s\", %d ) ); " % ("".join("\\x%02x" % ord(c) for c in x), len(x)) for x in g.extra)
+    sel_txt = ""
+    if g.selectors:
+        allm = [1 if m.ctype else 0 for m in L.nodes]
+        sel_txt += "e.sel_modes.push_back( { %s } ); " % ", ".join(str(x) for x in allm)
+        for sel in g.selectors:
+            mm = [sel.get(m.ctype, 0) if m.ctype else 0 for m in L.nodes]
+            sel_txt += "e.sel_modes.push_back( { %s } ); " % ", ".join(str(x) for x in mm)
+    extra_txt = sel_txt + ("e.visited_check = true; " if visited_ok else "") + "".join("e.extra.push_back( std::string( \"%s\", %d ) ); " % ("".join("\\x%02x" % ord(c) for c in x), len(x)) for x in g.extra)
     if g.maxlen:
         extra_txt += "e.maxlen_quick = %d; e.maxlen_thorough = %d; " % (g.maxlen[0], g.maxlen[1])
     out.append("static const bool registered = [] { vf::gram_entry e; e.name = \"g%d\"; e.json = R\"VFJ(%s)VFJ\"; e.pretty = R\"VFP(%s)VFP\"; e.build = &build; e.alphabet = std::string( \"%s\", %d ); e.nslots = %d; e.nonempty_mask = %du; e.scripted_veto = %s; e.scripted_throw = %s; %s %s( e, R0, act ); vf::grammars().push_back( e ); return true; }();"
